@@ -69,6 +69,17 @@ def run(res):
             h.new(syn(e))
             if h.pool[-1] is None or not (h.pool[-1] == o):
                 h.notes.append('synonym form of %s builds a different OBDD' % B.render(e))
+        # the same text under another ordering while the first results are still referenced
+        if nv >= 2:
+            other = list(reversed(ordering)) if rng.random() < 0.5 else [v for v in rng.choice(orders) if v in names]
+            h2 = B.History(other)
+            h2.new(e)
+            if h2.pool[0] is not None:
+                if not B.ordered_reduced(h2.pool[0].root, other):
+                    h2.notes.append('OBDD(%s, %s) does not respect its own ordering' % (B.render(e), other))
+                h2.str_(0)
+            h2.close()
+            hs.append(h2)
         h.close()
         hs.append(h)
     st = B.run_histories(res, hs, 'C18')
